@@ -374,7 +374,7 @@ CLAUSES = [
            budget={"quick": (8, 0), "thorough": (16, 0)}, exhaustive=True,
            doc="every class x every duration 1..40 x 5 parameter sets"),
     Clause("from_max_val", check_maxval, gen=lambda t: maxval_cases(t),
-           budget={"quick": (8, 60), "thorough": (16, 1500)}),
+           budget={"quick": (16, 200), "thorough": (16, 3000)}),
     Clause("pulse", check_pulse, gen=lambda t: pulse_cases(),
            budget={"quick": (8, 300), "thorough": (16, 10000)}),
 ]
